@@ -2,6 +2,7 @@
 import json
 import os
 import random
+from concurrent.futures import ThreadPoolExecutor
 
 from .common import *
 from .core import Ctx, Infra, casehash, log
@@ -10,32 +11,55 @@ from .core import Ctx, Infra, casehash, log
 @pipeline
 def c13(ctx: Ctx):
     ctx.assumptions = [
-        "TLC; spec/Defaults.tla (WithDefaults as least fixed point, FixedPoint checked by TLC) and spec/BodyStream.tla (L2 model of the three body-handling sites, checked against 'body readable' by TLC; the pinned-tree variant must still show the known counterexample)",
-        "harness realiser/projector harness/c13.go: body drained after each validation, GetBody/ContentLength read back, second validation on the forwarded request, document digest before/after; parameter defaults observed by decoding the forwarded request (verif hook)",
-        "JSON bodies only (the library can re-encode only application/json)",
+        "TLC; spec/Defaults.tla (WithDefaults as least fixed point, FixedPoint checked by TLC); spec/BodyStream.tla (L2 model of the three body-handling sites of one validation, checked against 'body readable'; the pinned-tree variant must still show the known counterexample); spec/BodyStreamH.tla (L2 model of several requests over a heap of byte buffers, validation phases interleaved, read / rewind / validate-again histories, query and header as carriers; checked against L1-at-rest for the repaired design and for the tree on JSON bodies; three design variants -- no encoder for a decodable type, pooled encoder buffer, Close bound at return -- must each show their counterexample)",
+        "harness realiser/projector harness/c13.go: single cases: body drained after each validation, GetBody/ContentLength read back, second validation on the forwarded request; history cases: validations and reads in the order the history says (reads are not forced after a validation), the request rewound as a transport does; document digest before/after; parameter defaults observed by decoding the forwarded request (verif hook); kind of reader / GetBody installed (fidelity against BodyStreamH)",
+        "bodies in every media type with a decoder that can carry an object (JSON family, YAML, urlencoded, multipart); forwarded non-JSON bodies are projected with the decoder the library exports for the type",
+        "left open (excluded): the carriers of parameter defaults after a REJECTED validation (the statement is silent); form bodies with ill-typed / undeclared fields and typed multipart parts (property C06)",
     ]
     cases = os.path.join(ctx.scratch, "cases.ndjson")
     if ctx.replay:
         write_ndjson(cases, [ctx.replay["violation"]["c"]])
     else:
-        ctx.tlc("MC_C13", "MC_C13.cfg", label="D BodyStream L2 => body readable")
-        ctx.tlc("MC_C13", "MC_C13_pinned.cfg", expect_violation=True, label="D pinned-model counterexample (restore missing)")
-        ctx.tlc("Gen_C13", "Gen_C13.cfg", label="D WithDefaults fixed point + F generate cases")
+        th = "_thorough" if ctx.tier == "thorough" else ""
+        def gen():
+            ctx.tlc("Gen_C13", "Gen_C13.cfg", workers=4, label="D WithDefaults fixed point + F generate cases")
+            ctx.tlc("Gen_C13H", "Gen_C13H_%s.cfg" % ("thorough" if ctx.tier == "thorough" else "quick"), workers=4,
+                    label="F generate histories (%s)" % ctx.tier)
+        jobs = [
+            gen,
+            lambda: ctx.tlc("MC_C13", "MC_C13.cfg", workers=2, label="D BodyStream L2 => body readable"),
+            lambda: ctx.tlc("MC_C13", "MC_C13_pinned.cfg", workers=2, expect_violation=True, label="D pinned-model counterexample (restore missing)"),
+            # BodyStreamH: several requests over a heap of buffers, phases interleaved, histories (validate / read / rewind / validate again)
+            lambda: ctx.tlc("MC_C13H", "MC_C13H_repaired%s.cfg" % th, workers=4, label="D BodyStreamH repaired design => L1 at rest"),
+            lambda: ctx.tlc("MC_C13H", "MC_C13H_tree_json%s.cfg" % th, workers=4, label="D BodyStreamH as the tree is, JSON bodies => L1 at rest"),
+            lambda: ctx.tlc("MC_C13H", "MC_C13H_tree%s.cfg" % th, workers=2, expect_violation=True,
+                            label="D BodyStreamH as the tree is, every decodable type: counterexample (no encoder; F-C13-4/5)"),
+            lambda: ctx.tlc("MC_C13H", "MC_C13H_pooled%s.cfg" % th, workers=2, expect_violation=True,
+                            label="D BodyStreamH encoder hands out a pooled buffer: counterexample (requests share bytes)"),
+            lambda: ctx.tlc("MC_C13H", "MC_C13H_closelate%s.cfg" % th, workers=2, expect_violation=True,
+                            label="D BodyStreamH deferred Close bound at return: counterexample (restored body closed)"),
+        ]
+        with ThreadPoolExecutor(max_workers=len(jobs)) as ex:
+            for f in [ex.submit(j) for j in jobs]:
+                f.result()
         n = ctx.unquote(ctx.spec("cases.ndjson"), cases)
         log("[gen] %d cases" % n)
         ctx.exhaustive = True
     ctx.build_driver()
     logp = os.path.join(ctx.scratch, "log.ndjson")
-    ctx.drive(cases, logp)
+    ctx.drive(cases, logp, shards=8 if ctx.tier == "thorough" else 4)
     rng = random.Random(ctx.seed)
     for l in open(logp):
         o = json.loads(l)
-        ctx.evaluations += 2
+        ctx.evaluations += len([st for st in o["c"]["steps"] if st["op"] == "V"]) if o["c"]["kind"] == "hist" else 2
         ctx.nontrivial.add(casehash(o["c"]))
         if rng.random() < 6.0 / 800:
-            ctx.samples.append({k: o.get(k) for k in ("c", "verdict1", "after1", "q1", "verdict2")})
-    ctx.rule = ("product of spec/Gen_C13.tla: 9 body schemas with defaults (flat, nested, object default with nested default, allOf, oneOf, anyOf with "
-                "nested defaults in both branches, array items, readOnly, default next to a failing constraint) x bodies x 6 security/callback "
-                "behaviours x preset GetBody x SkipSettingDefaults; + parameter defaults (query/header/cookie x int/str/array x explode) x present "
-                "x skip x other query parameter present; each case validated twice")
-    ctx.validate("Trace_C13", "Trace_C13.cfg", logp, chunk_lines=100)
+            ctx.samples.append({k: o.get(k) for k in ("c", "verdict1", "after1", "q1", "verdict2", "obs") if k in o})
+    ctx.rule = ("product of spec/Gen_C13.tla: 12 body schemas with defaults (flat, nested, object default with nested default, allOf, oneOf, anyOf with "
+                "nested defaults in both branches, array items, readOnly, default next to a failing constraint, allOf next to oneOf/anyOf, strings only) x bodies "
+                "x 6 security/callback behaviours x preset GetBody x SkipSettingDefaults x charset parameter x unsized x white space; x media type "
+                "(problem+json, vnd.api+json, yaml, urlencoded, multipart); + parameter defaults (query/header/cookie x int/str/array x explode) x present "
+                "x skip x other query parameter present; each case validated twice; + spec/Gen_C13H.tla histories: (schema, body) x option slice "
+                "(skip, preset, callback, parameters next to the body none/absent/mixed) x partner request x step sequences over {validate, read+rewind} "
+                "x 2 requests (quick: 5 chosen sequences; thorough: all of length 2..3) + final reads")
+    ctx.validate("Trace_C13", "Trace_C13.cfg", logp, chunk_lines=350 if ctx.tier != "thorough" else 2000)
